@@ -14,7 +14,7 @@ pub fn run(sh: &mut Shell, cl: &CommandLine, cmd: &Command,
     let mut cr = CommandResult::new();
     let tokens = cmd.tokens.clone();
 
-    let re_name_ptn = Regex::new(r"^([a-zA-Z_][a-zA-Z0-9_]*)=(.*)$").unwrap();
+    let re_name_ptn = Regex::new(r"(?s)^([a-zA-Z_][a-zA-Z0-9_]*)=(.*)$").unwrap();
     for (_, text) in tokens.iter() {
         if text == "export" {
             continue;
